@@ -279,9 +279,9 @@ func (cs *Contracts) loadFile(path, pkgPath, pkgName string) error {
 				if part == "" {
 					continue
 				}
-				if part == "*" || part == "nothing" {
-					if part == "*" {
-						cur.Modifies = append(cur.Modifies, Clause{Src: "*", File: path, Line: ln})
+				if part == "*" || part == "**" || part == "nothing" {
+					if part != "nothing" {
+						cur.Modifies = append(cur.Modifies, Clause{Src: part, File: path, Line: ln})
 					}
 					continue
 				}
